@@ -100,9 +100,16 @@ func cleanSuffix(val any) any {
 	switch t := val.(type) {
 	case map[string]any:
 		for k, v := range t {
-			parts := strings.Split(k, "#")
+			key := strings.Split(k, "#")[0]
+			cleaned := cleanSuffix(v)
 
-			result[parts[0]] = cleanSuffix(v)
+			// multiple environment variables can contribute to the same (nested) list. In that case the
+			// keys differ only in the suffix and the values must be merged instead of replacing each other
+			if existing, ok := result[key]; ok {
+				result[key] = merge(existing, cleaned)
+			} else {
+				result[key] = cleaned
+			}
 		}
 
 		return result
